@@ -1,7 +1,24 @@
 ------------------------------- MODULE PropsAll ------------------------------
-EXTENDS PropsWrap
+(* Dispatch of the event kinds that are not handled in Trace.tla itself. *)
+EXTENDS PropsRel
 JudgeMore(e) ==
-  CASE e.ev = "wrap" -> Judge_wrap(e)
-    [] e.ev = "fill" -> Judge_fill(e)
+  CASE e.ev = "wrap"   -> Judge_wrap(e)
+    [] e.ev = "fill"   -> Judge_fill(e)
+    [] e.ev = "frag"   -> Judge_frag(e)
+    [] e.ev = "c05"    -> Judge_c05(e)
+    [] e.ev = "c08"    -> Judge_c08(e)
+    [] e.ev = "c09"    -> Judge_c09(e)
+    [] e.ev = "c13"    -> Judge_c13(e)
+    [] e.ev = "c14"    -> Judge_c14(e)
+    [] e.ev = "c15"    -> Judge_c15(e)
+    [] e.ev = "c16"    -> Judge_c16(e)
+    [] e.ev = "c17"    -> Judge_c17(e)
+    [] e.ev = "c18"    -> Judge_c18(e)
+    [] e.ev = "c20"    -> Judge_c20(e)
+    [] e.ev = "unfill" -> Judge_unfill(e)
+    [] e.ev = "dedent" -> Judge_dedent(e)
+    [] e.ev = "indent" -> Judge_indent(e)
+    [] e.ev = "std"    -> Judge_std(e)
+    [] e.ev = "call"   -> Judge_call(e)
     [] OTHER -> << Chk("TOOL", "TOOL", "unknown event kind", FALSE) >>
 =============================================================================
